@@ -879,6 +879,97 @@ func (c *conn) Close() error {""")]),
 			dirs = make([]Dir, len(ret))""", """			done = len(ret) == 0
 			dirs = make([]Dir, len(ret))""")]),
  ("c17-work-slice-full-cap", "C17", [("readdir.go", "	p = p[:0:len(p)]", "	p = p[:0]")]),
+
+ # ---- C18
+ ("c18-walk-no-parents-guard", "C18", [("ramfs/dirent.go", """	if ndel > len(h.parents) {
+		return nil, noHandle, p9p.MessageRerror{Ename: "invalid path"}
+	}
+""", "")]),
+ ("c18-write-no-lock", "C18", [("ramfs/dirent.go", """func (ref *FileEnt) Write(ctx context.Context, p []byte,
+	offset int64) (int, error) {
+	ref.Lock()
+	defer ref.Unlock()
+""", """func (ref *FileEnt) Write(ctx context.Context, p []byte,
+	offset int64) (int, error) {
+""")]),
+ ("c18-read-upper-guard-dropped", "C18", [("ramfs/dirent.go", """	if offset > n {
+		return 0, io.EOF
+	}
+	m := int64(len(p))""", """	_ = io.EOF
+	m := int64(len(p))""")]),
+ ("c18-wstat-truncate-unguarded", "C18", [("ramfs/dirent.go", """		if m < dir.Length {
+			return p9p.MessageRerror{Ename: "Size larger than file"}
+		}
+""", """		_ = m
+""")]),
+ ("c18-incref-no-unlock", "C18", [("ramfs/inode.go", """	f.Lock()
+	defer f.Unlock()
+
+	f.nref++
+	return f.Info.Name""", """	f.Lock()
+
+	f.nref++
+	return f.Info.Name""")]),
+ ("c18-read-returns-len-p", "C18", [("ramfs/dirent.go", """	copy(p[:m], ref.Data[offset:offset+m])
+	return int(m), nil""", """	copy(p[:m], ref.Data[offset:offset+m])
+	return len(ref.Data), nil""")]),
+ ("c18-clunk-index-off", "C18", [("ramfs/dirent.go", "h.parents[len(h.parents)-i-1].decref()", "h.parents[len(h.parents)-i].decref()")]),
+ ("c18-link-child-unlocked", "C18", [("ramfs/inode.go", """func (f *FileEnt) link_child(name string, c *FileEnt) error {
+	f.Lock()
+	defer f.Unlock()
+""", """func (f *FileEnt) link_child(name string, c *FileEnt) error {
+""")]),
+ ("c18-createimpl-parents-short", "C18", [("ramfs/dirent.go", "	parents := make([]*FileEnt, len(h.parents)+1)", "	parents := make([]*FileEnt, len(h.parents))")]),
+
+ # ---- C19
+ ("c19-oflags-swap", "C19", [("ufs/util.go", """	case p9p.ORDWR:
+		flags = os.O_RDWR
+		break
+
+	case p9p.OWRITE:
+		flags = os.O_WRONLY
+		break""", """	case p9p.ORDWR:
+		flags = os.O_WRONLY
+		break
+
+	case p9p.OWRITE:
+		flags = os.O_RDWR
+		break""")]),
+ ("c19-length-from-modtime", "C19", [("ufs/util.go", "	dir.Length = uint64(info.Size())", "	dir.Length = uint64(info.ModTime().Unix())")]),
+ ("c19-writeat-zero", "C19", [("ufs/dirent.go", "	return ref.file.WriteAt(p, offset)", "	return ref.file.WriteAt(p, 0)")]),
+ ("c19-trunc-always", "C19", [("ufs/util.go", """	if mode&p9p.OTRUNC != 0 {
+		flags |= os.O_TRUNC
+	}""", """	if mode&p9p.OTRUNC == 0 {
+		flags |= os.O_TRUNC
+	}""")]),
+ ("c19-dmdir-unconditional", "C19", [("ufs/util.go", """	if info.Mode().IsDir() {
+		dir.Qid.Type |= p9p.QTDIR
+		dir.Mode |= p9p.DMDIR
+	}""", """	dir.Mode |= p9p.DMDIR
+	if info.Mode().IsDir() {
+		dir.Qid.Type |= p9p.QTDIR
+	}""")]),
+ ("c19-wstat-chmod-ignores-sentinel", "C19", [("ufs/dirent.go", "	if dir.Mode != ^uint32(0) {", "	if dir.Mode != 0 {")]),
+ ("c19-create-perm-unmasked", "C19", [("ufs/dirent.go", "os.OpenFile(newpath, oflags(mode)|os.O_CREATE, os.FileMode(perm&0777))", "os.OpenFile(newpath, oflags(mode)|os.O_CREATE, os.FileMode(perm&0700))")]),
+ ("c19-open-ignores-mode", "C19", [("ufs/dirent.go", "file, err := os.OpenFile(ref.fullPath(), oflags(mode), 0)", "file, err := os.OpenFile(ref.fullPath(), os.O_RDWR, 0)")]),
+ ("c19-truncate-wrong-length", "C19", [("ufs/dirent.go", "os.Truncate(ref.fullPath(), int64(dir.Length))", "os.Truncate(ref.fullPath(), int64(dir.Mode))")]),
+ # ---- C20
+ ("c20-clunk-other-fid", "C20", [("cfilesys.go", "	return ent.fs.session.Clunk(ctx, ent.fid)", "	return ent.fs.session.Clunk(ctx, ent.fs.root.fid)")]),
+ ("c20-partial-walk-returns-next", "C20", [("cfilesys.go", """	if len(qids) != len(steps) { // incomplete = failure to get new ent
+		return qids, noEnt, Warning{"Incomplete walk result"}
+	}""", """	if len(qids) == 0 && len(steps) > 0 { // incomplete = failure to get new ent
+		return qids, noEnt, Warning{"Incomplete walk result"}
+	}""")]),
+ ("c20-newfid-no-increment", "C20", [("cfilesys.go", """	fs.nextfid++
+	return fs.nextfid""", """	return fs.nextfid + 1""")]),
+ ("c20-remove-calls-clunk", "C20", [("cfilesys.go", "	return ent.fs.session.Remove(ctx, ent.fid)", "	return ent.fs.session.Clunk(ctx, ent.fid)")]),
+ ("c20-walk-reuses-fid", "C20", [("cfilesys.go", "	qids, err := ent.fs.session.Walk(ctx, ent.fid, next.fid, steps...)", "	qids, err := ent.fs.session.Walk(ctx, ent.fid, ent.fid+1, steps...)")]),
+ ("c20-walk-sends-raw-names", "C20", [("cfilesys.go", "	qids, err := ent.fs.session.Walk(ctx, ent.fid, next.fid, steps...)", "	qids, err := ent.fs.session.Walk(ctx, ent.fid, next.fid, names...)")]),
+ ("c20-stat-on-next-fid", "C20", [("cfilesys.go", "	return ent.fs.session.Stat(ctx, ent.fid)", "	return ent.fs.session.Stat(ctx, ent.fs.nextfid)")]),
+ ("c20-nextfid-reset", "C20", [("cfilesys.go", """	rootFid := fs.newFid()
+""", """	fs.nextfid = 0
+	rootFid := fs.newFid()
+""")]),
 ]
 
 # Behaviour-preserving (for the named property) edits: the check must stay silent.
